@@ -543,6 +543,10 @@ def observe_saved(pptx_bytes, slide_idx, chart_no):
     from vlib import opcmodel as O
 
     pkg = O.Pkg.read(pptx_bytes)
+    if pkg.dups:
+        # two parts saved under one name: which workbook the chart's relationship reaches is then undefined
+        raise Violation("C08:saved-package:duplicate-member:%s" % pkg.dups[0].split("/")[2],
+                        "the saved package holds duplicate member names %s" % pkg.dups[:3])
     main = [r for r in pkg.rels("/") if r.type == O.RT_OFFICE_DOCUMENT][0].resolved
     prs = etree.fromstring(pkg.members[main], _PLAIN)
     prels = dict((r.id, r) for r in pkg.rels(main))
@@ -580,6 +584,10 @@ def rewrite_start_state(pptx_bytes, slide_idx, chart_no, date1904, noext):
 
     _xml, _wb, cname = observe_saved(pptx_bytes, slide_idx, chart_no)
     pkg = O.Pkg.read(pptx_bytes)
+    if pkg.dups:
+        # two parts saved under one name: which workbook the chart's relationship reaches is then undefined
+        raise Violation("C08:saved-package:duplicate-member:%s" % pkg.dups[0].split("/")[2],
+                        "the saved package holds duplicate member names %s" % pkg.dups[:3])
     root = etree.fromstring(pkg.members[cname], _PLAIN)
     if date1904:
         d = root.find(C + "date1904")
@@ -772,7 +780,7 @@ def run_case(case, rec=None, known=None):
         shape, nt, classes = shape_of(case, i, info)
         classes = list(classes) + ["step:" + step, "start:" + (start if isinstance(start, str) else "corpus")]
         if step != "add":
-            classes += ["mod:" + k for k in ("date1904", "noext", "reopen") if mods.get(k)]
+            classes += ["mod:" + k for k in ("date1904", "noext", "reopen", "ole_first") if mods.get(k)]
             if mods.get("noext") and i == di:
                 classes.append("replace:creates-new-workbook-part")
         h = core.case_hash([shape, step, bool(info.get("date1904")), case["type"] if step == "add" else kind])
@@ -800,6 +808,12 @@ def run_case(case, rec=None, known=None):
             prs = Presentation()
             slide = prs.slides.add_slide(prs.slide_layouts[6])
             slide_idx, chart_no = 0, 0
+            if mods.get("ole_first"):
+                from pptx.enum.shapes import PROG_ID
+                other = prs.slides.add_slide(prs.slide_layouts[6])
+                with core.sut("C08:add_ole_object"):
+                    other.shapes.add_ole_object(corpus.path("features/steps/test_files/shp-embedded-xlsx.xlsx"),
+                                                PROG_ID.XLSX, Inches(1), Inches(1))
             with core.sut("C08:chart-from-data:%s" % _kindname(kind)):
                 chart = slide.shapes.add_chart(ctype, Inches(1), Inches(1), Inches(6), Inches(4), cd).chart
         xml, xlsx = observe_memory(chart, "add")
